@@ -46,6 +46,8 @@ enum {
     SLUV_E_ALLOC_LUSUP,   /* pnum, jcol, fsupc, prev_next, num, nzlumax */
     SLUV_E_DYN_SETMAP,    /* pnum, jcol, nextlu, num, nzlumax */
     SLUV_E_SNODE_BEGIN,   /* pnum, jcol, kcol(one past)  relaxed supernode factor */
+    SLUV_E_WORK_ALLOC,    /* iwork, isize(bytes), dwork, dsize(bytes), 1 if carved from the user's workspace */
+    SLUV_E_WORK_FREE,     /* iwork, dwork */
     SLUV_E_MAX
 };
 
@@ -54,7 +56,8 @@ enum {
     SLUV_Y_LOOP_TOP = 1, SLUV_Y_SCHED_EXIT, SLUV_Y_AFTER_PIVOT,
     SLUV_Y_BEFORE_RELEASE, SLUV_Y_AFTER_RELEASE, SLUV_Y_BEFORE_PRUNE,
     SLUV_Y_PRUNE_SCAN, SLUV_Y_MID_SWAP, SLUV_Y_BEFORE_WAIT,
-    SLUV_Y_NSUPER_LSUB, SLUV_Y_BEFORE_DONE, SLUV_Y_SUB_READ, SLUV_Y_MAX
+    SLUV_Y_NSUPER_LSUB, SLUV_Y_BEFORE_DONE, SLUV_Y_SUB_READ, SLUV_Y_WORK_ALIGN,
+    SLUV_Y_MAX
 };
 
 typedef void (*sluv_event_fn)(int kind, long a, long b, long c, long d,
